@@ -142,6 +142,9 @@ class Policy:
 
     dedupe = True
 
+    def abandoned(self, st, body, blk):
+        pass
+
     def trace_key(self, trace):
         return trace
 
@@ -160,6 +163,7 @@ class Interp:
         self.body_by_id = {b.id: b for b in facts.bodies.values() if b.pkg != "rscel_python"}
         self.paths = 0
         self.steps = 0
+        self._body = None
         self.unhandled = collections.Counter()
         self.summaries = list(SUMMARIES)
 
@@ -352,9 +356,36 @@ class Interp:
                 return UNIT
             if "static" in c:
                 return U("static " + c["static"], c.get("ty", ""))
+            mp = re.search(r"::promoted\[(\d+)\]", r)
+            if mp and self._body is not None:
+                pv = self.eval_promoted(st, self._body, int(mp.group(1)))
+                if pv is not None:
+                    return pv
             return U("const " + r[:60], c.get("ty", ""))
         p = op.get("copy") or op.get("move")
         return self.read_place(st, fid, p)
+
+    def eval_promoted(self, st, body, n):
+        proms = body.d.get("promoted") or []
+        if n >= len(proms):
+            return None
+        blocks = proms[n]["blocks"]
+        fid = st.fresh()
+        st.frames[fid] = {}
+        blk = 0
+        for _ in range(32):
+            b = blocks[blk]
+            for s in b["stmts"]:
+                if s["k"] == "assign":
+                    self.write_place(st, fid, s["place"], self.rvalue(st, fid, None, s["rv"]))
+            t = b["term"]
+            if t is None or t["k"] == "return":
+                return st.frames[fid].get(0)
+            if t["k"] in ("goto", "drop", "assert"):
+                blk = t["t"]
+                continue
+            return None
+        return None
 
     def rvalue(self, st, fid, body, rv):
         k = rv["k"]
@@ -491,8 +522,10 @@ class Interp:
                 c = st.visits.get(key, 0) + 1
                 st.visits[key] = c
                 if c > self.policy.limit_for(body, blk):
+                    self.policy.abandoned(st, body, blk)
                     break   # loop bound: abandon this path
                 b = body.blocks[blk]
+                self._body = body
                 for s in b["stmts"]:
                     if s["k"] == "assign":
                         v = self.rvalue(st, fid, body, s["rv"])
@@ -502,6 +535,7 @@ class Interp:
                 t = b["term"]
                 if t is None:
                     break
+                self._body = body
                 k = t["k"]
                 if k == "goto":
                     blk = t["t"]
@@ -565,19 +599,28 @@ class Interp:
                 name = vmap.get(cv) if vmap else None
                 if name is not None and ap is not None:
                     self.refine_place(s2, ap, head, name, cur)
-                s2.cond = s2.cond + (("variant", _short(head), name if name is not None else cv),)
+                s2.cond = s2.cond + (("variant", _short(head), name if name is not None else cv, _origin(cur)),)
                 out.append((s2, cb))
             rest = [n for v, n in (vmap or {}).items() if v not in seen]
             if vmap is None or rest:
                 s2 = st.copy()
                 if vmap is not None and len(rest) == 1 and ap is not None:
                     self.refine_place(s2, ap, head, rest[0], cur)
-                    s2.cond = s2.cond + (("variant", _short(head), rest[0]),)
+                    s2.cond = s2.cond + (("variant", _short(head), rest[0], _origin(cur)),)
                 else:
-                    s2.cond = s2.cond + (("variant-not", _short(head), tuple(sorted(str(vmap.get(v, v)) if vmap else str(v) for v in seen))),)
+                    s2.cond = s2.cond + (("variant-not", _short(head), tuple(sorted(str(vmap.get(v, v)) if vmap else str(v) for v in seen)), _origin(cur)),)
                 out.append((s2, otherwise))
             return out
-        # unknown integer / bool
+        # unknown integer / bool: a pure opaque predicate decided earlier on this path keeps its value
+        rd = _render(d)
+        for c in st.cond:
+            if c[0] == "eq" and c[1] == rd:
+                tgt = [cb for cv, cb in cases if cv == c[2]]
+                return [(st, tgt[0] if tgt else otherwise)]
+            if c[0] == "ne" and c[1] == rd:
+                left = [(cv, cb) for cv, cb in cases if cv not in c[2]]
+                if not left:
+                    return [(st, otherwise)]
         for cv, cb in cases:
             s2 = st.copy()
             s2.cond = s2.cond + (("eq", _render(d), cv),)
@@ -618,7 +661,7 @@ class Interp:
             if new is None:
                 origin = val[1] if val[0] == "u" else _render(val)
                 new = ("adt", head, name, None, origin)
-            s2.cond = s2.cond + (("variant", _short(head), name),)
+            s2.cond = s2.cond + (("variant", _short(head), name, _origin(val)),)
             out.append((s2, new))
         return out
 
@@ -681,10 +724,22 @@ class Interp:
             for a in args:
                 if a[0] == "lref":
                     self.write_place(st, a[1], {"l": a[2], "p": [_thaw(x) for x in a[3]]}, U("clobbered by " + _short(path)))
-        return [(st, ("call", _short(path), tuple(args), t.get("dty", "")))]
+        shown = []
+        for a in args:
+            tv = _target(self, st, a) if a[0] in ("lref", "ptr") else a
+            shown.append(tv if tv[0] in ("u", "i", "s", "call", "pj", "bin", "un", "adt", "tup", "seq", "label") else a)
+        return [(st, ("call", _short(path), tuple(shown), t.get("dty", "")))]
 
 
 # ------------------------------------------------------------------------------------ helpers
+
+def _origin(v):
+    if v[0] == "u":
+        return v[1]
+    if v[0] == "adt":
+        return v[4] or ""
+    return _render(v)[:160]
+
 
 def _freeze(e):
     if isinstance(e, dict):
@@ -802,7 +857,10 @@ def s_vec_push(I_, st, path, c, args, t, depth):
     items = _as_items(I_, st, cur)
     if items is None:
         return None
-    _store(I_, st, args[0], ("seq", tuple(items) + (args[1],)))
+    x = args[1]
+    if path.endswith("push_str") and x[0] in ("lref", "ptr"):
+        x = _target(I_, st, x)
+    _store(I_, st, args[0], ("seq", tuple(items) + (x,)))
     return [(st, UNIT)]
 
 
@@ -1158,7 +1216,8 @@ def s_mem_take(I_, st, path, c, args, t, depth):
 
 SUMMARIES = [(re.compile(rx), h) for rx, h in [
     (r"^(std|alloc)::vec::Vec::<T>::new$|^(std|alloc)::vec::Vec::<T>::with_capacity$", s_vec_new),
-    (r"^(std|alloc)::vec::Vec::<T, A>::push$", s_vec_push),
+    (r"^(std|alloc)::vec::Vec::<T, A>::push$|^(std|alloc)::string::String::push_str$", s_vec_push),
+    (r"^(std|alloc)::string::String::new$", s_vec_new),
     (r"^(std|alloc)::vec::Vec::<T, A>::pop$", s_vec_pop),
     (r"^(std|alloc)::vec::Vec::<T, A>::len$|slice::<impl \[T\]>::len$", s_len),
     (r"^(std|alloc)::vec::Vec::<T, A>::is_empty$|slice::<impl \[T\]>::is_empty$", s_is_empty),
